@@ -21,7 +21,7 @@ from props import sbc_terms as T
 from props import c01 as K
 
 LEVEL = "proof"
-STATIC = ["Sbc/ClusterCacheProofs.vo", "Sbc/PipelineProofs.vo", "Sbc/Examples.vo", "Base/CaseUtil.vo"]
+STATIC = ["Sbc/ClusterCacheProofs.vo", "Sbc/PipelineProofs.vo", "Sbc/Examples.vo", "Base/CaseUtil.vo", "Geometry/SubTable.vo", "Geometry/SubTableExample.vo"]
 PID = "C13"
 IMPL = "c13_impl"
 PREAMBLE = T.PREAMBLE + "From MV Require Import Sbc.ClusterCache.\n"
